@@ -47,7 +47,10 @@ def datasets(rng, n_random):
     return out
 
 
-def run_impl(fam, X):
+PERSISTENT = {}
+
+
+def run_impl(fam, X, persistent=False):
     import copulas.bivariate.base as base
     from copulas.bivariate import Bivariate
     rec = {}
@@ -58,7 +61,10 @@ def run_impl(fam, X):
         rec['tau'] = float(r[0])
         return r
     base.stats.kendalltau = kt
-    c = Bivariate(copula_type=fam)
+    if persistent:
+        c = PERSISTENT.setdefault(fam, Bivariate(copula_type=fam))     # one instance re-fitted on every table (history)
+    else:
+        c = Bivariate(copula_type=fam)
     try:
         with np.errstate(all='ignore'):
             c.fit(X.copy())
@@ -98,6 +104,7 @@ def repro(fam, X):
 
 
 def run(ctx):
+    PERSISTENT.clear()
     quick = ctx.tier == 'quick'
     status = biv.generate(ctx)
     statusq = biv.generate_q(ctx)
@@ -122,6 +129,16 @@ def run(ctx):
     for name, X in ds:
         for fam in FAMS:
             c, tau, res = run_impl(fam, X)
+            # history: the same table fitted on an instance that was fitted on all the previous tables
+            _, tau_h, res_h = run_impl(fam, X, persistent=True)
+            same = (res_h[0] == res[0]) and (res_h[0] == 'err' and res_h[1] == res[1] or
+                                             res_h[0] == 'ok' and res_h[1] == res[1] and (res_h[2] == res[2] or abs(res_h[2] - res[2]) <= 1e-9 * (1 + abs(res[2]))))
+            ctx.obligation(f'corr:refit-equals-fresh:{fam}:{name}', same, 'correspondence', f'fresh {res} vs re-fitted instance {res_h}')
+            if not same:
+                ctx.violation(f'corr:refit-differs-from-fresh:{fam}', f'{fam}: fitting dataset {name} on an instance fitted before gives {res_h}, a fresh instance gives {res}',
+                              {'family': fam, 'dataset': name, 'X': X.tolist(), 'fresh': res, 'refit': res_h,
+                               'repro': f"import numpy as np\nfrom copulas.bivariate import Bivariate\nA=np.array([[.1,.2],[.2,.4],[.3,.1],[.4,.3],[.5,.9]])\nX=np.array({X.tolist()!r})\n"
+                                        f"c=Bivariate(copula_type='{fam}'); c.fit(A); c.fit(X)\nf=Bivariate(copula_type='{fam}'); f.fit(X)\nprint(c.theta, f.theta)\nassert c.theta == f.theta\n"})
             U, V = X[:, 0], X[:, 1]
             tau_coq = 'None' if (tau is None or tau != tau) else f'(Some {q(tau)})'
             if fam == 'frank':
